@@ -195,7 +195,8 @@ def decodeAll : Nat → Nat → Bytes → Option (List (Nat × Nat × DInsn))
     match decodeOne pc bs with
     | none => none
     | some (d, len) =>
-      if len = 0 ∨ len > bs.length then none
+      -- `len > bs.length` (the instruction overruns the array), written without walking the whole array
+      if len = 0 ∨ (bs.drop (len - 1)).isEmpty then none
       else
         match decodeAll fuel (pc + len) (bs.drop len) with
         | none => none
